@@ -402,6 +402,12 @@ def _chsw(ctx, run, f):
             l = f.exprs[ex.skip(f, lhs)]
             if l["k"] == "mem" and "%s.%s" % (l.get("in"), l["member"]) == F_CN:
                 r = f.exprs[ex.skip(f, rhs)]
+                if r["k"] == "ref" and r.get("dk") == "local":
+                    # `new_cn = _vbi_cache_add_network (...); ... vbi->cn = new_cn;`
+                    from .. import linear
+                    rd = linear.reaching_def(f, r["name"], i)
+                    if rd is not None and rd[2] is not None:
+                        r = f.exprs[ex.skip(f, rd[2])]
                 if r["k"] == "call" and r.get("callee") in NET_ACQ:
                     st = (bid, i)
     if st is None:
@@ -416,6 +422,14 @@ def _chsw(ctx, run, f):
                 e = f.exprs[j]
                 if e["k"] == "call" and e.get("callee") in NET_REL and F_CN in atoms.Operand(f, e["c"][0]).fields:
                     rel = j
+                elif e["k"] == "call" and e.get("callee") in NET_REL:
+                    # `old_cn = vbi->cn; ... cache_network_unref (old_cn);`
+                    a0 = f.exprs[ex.skip(f, e["c"][0])]
+                    if a0["k"] == "ref" and a0.get("dk") == "local":
+                        from .. import linear
+                        rd = linear.reaching_def(f, a0["name"], j)
+                        if rd is not None and rd[2] is not None and F_CN in atoms.Operand(f, rd[2]).fields:
+                            rel = j
     key = "RF-DOM:vbi_chsw_reset:release-before-replace"
     if rel is not None:
         run.holds("RF-DOM", key, "cache_network_unref (vbi->cn) precedes vbi->cn = <new network>", ex.loc(f, i))
